@@ -220,7 +220,7 @@ def first_effects(f, start, eff, limit=400):
 
 def rule_boxsize(ctx, bs):
     rid = "R-BOXSIZE"
-    ctx.rule(rid, "no box size is reduced below zero: header sizes are reduced with checked_sub -> InvalidBox; a jxlp box smaller than its "
+    ctx.rule(rid, "no box size is reduced below zero (the header's own size arithmetic: R-BOXHDR-EVAL): a jxlp box smaller than its "
                   "4-byte index and a brob box smaller than its 4-byte inner type are rejected before the unchecked `- 4`; reserved inner "
                   "types of brob are rejected; every other subtraction on bytes_left is bounded by min()/a length test")
     f = bs.fn(EMIT)
@@ -230,34 +230,7 @@ def rule_boxsize(ctx, bs):
         return
     ctx.seen(f)
     ctx.seen(h)
-    # (i) header parse: two checked_sub with constants 16 and 8
-    consts = []
-    hd = Defs(h)
-    for b, t in h.calls():
-        c = callee(t)
-        if c and c["fn"] in ("core::num::<impl u64>::checked_sub", "core::num::<impl u32>::checked_sub"):
-            consts.append(op_const_int(t[2][1]))
-    # a plain `size - K` is as good when an ordering comparison on the same value dominates it (`if size < 16 { Err }`, or the
-    # range arms of `match size { 1..=7 => Err, _ => size - 8 }`)
-    from .fieldrange import locally_guarded
-    plain_sub = []
-    for b_, blk in enumerate(h.blocks):
-        if blk[2]:
-            continue
-        for st in blk[0]:
-            if st[0] == "=" and st[2][0] == "bin" and st[2][1] in ("Sub", "SubWithOverflow"):
-                k_ = op_const_int(st[2][3])
-                l_ = op_local(st[2][2])
-                if k_ is not None and l_ is not None and locally_guarded(h, l_, b_, skip=st):
-                    consts.append(k_)
-                else:
-                    plain_sub.append(st)
-    if sorted(set(x for x in consts if x is not None)) == [8, 16] and not plain_sub:
-        ctx.ok(rid, "header-size-checked_sub", "the 64-bit size is reduced by 16 and the 32-bit size by 8, each checked (checked_sub, or a "
-               "dominating comparison on the same value)", nontrivial=True, fn=h)
-    else:
-        ctx.bad(rid, "header-size-checked_sub", "box header sizes are not reduced by checked_sub(16)/checked_sub(8) only (found checked_sub %s, %d plain "
-                "subtractions): a size smaller than its header underflows" % (consts, len(plain_sub)), fn=h)
+    # (i) the header parser's own size arithmetic is decided by R-BOXHDR-EVAL (evaluated from MIR), whatever its spelling
     cs = validation.checks(f)
     conds = {}
     for c in cs:
@@ -836,11 +809,91 @@ def rule_auxbox(ctx):
         ctx.bad(rid, "eof|never-called", "nobody calls AuxBoxList::eof any more", fn=eof)
 
 
+def rule_boxhdr_eval(ctx):
+    """the box header parser, evaluated from MIR on crafted headers, implements the ISO BMFF size rules"""
+    from .. import absint
+    rid = "R-BOXHDR-EVAL"
+    ctx.rule(rid, "ContainerBoxHeader::parse is evaluated from MIR on 26 byte strings and compared with ISO/IEC 14496-12 4.2 as used by "
+                  "ISO/IEC 18181-2: fewer than 8 bytes (or 8..15 bytes of an extended header) -> need more data; 32-bit size 0 -> the "
+                  "box runs to the end of the file; 1 -> a 64-bit size follows, which must be at least 16 (0 has no special meaning "
+                  "there); 2..7 -> invalid; otherwise payload = size - 8 (resp. - 16) and the header length is 8 (resp. 16); the type "
+                  "is bytes 4..8.  This decides what the size arithmetic does, however it is written (checked_sub with a constant, a "
+                  "shared tail with a variable header size, explicit comparisons)")
+    cr = ctx.prog.crate("jxl_bitstream")
+    f = cr.fns.get("jxl_bitstream::container::box_header::ContainerBoxHeader::parse")
+    hd = cr.adts.get("jxl_bitstream::container::box_header::ContainerBoxHeader")
+    pr = cr.adts.get("jxl_bitstream::container::box_header::HeaderParseResult")
+    if f is None or f.argc != 1 or hd is None or pr is None:
+        ctx.anchor_missing(rid, "jxl_bitstream::container::box_header::ContainerBoxHeader::parse(&[u8])")
+        return
+    ctx.seen(f)
+    hf = [x[0] for x in hd["variants"][0]["fields"]]
+    done = next((v for v in pr["variants"] if v["name"] == "Done"), None)
+    df = [x[0] for x in done["fields"]] if done else []
+    if sorted(hf) != ["box_size", "is_last", "ty"] or sorted(df) != ["header", "header_size"]:
+        ctx.anchor_missing(rid, "ContainerBoxHeader { ty, box_size, is_last } / HeaderParseResult::Done { header, header_size }")
+        return
+
+    def be(v, n):
+        return [(v >> (8 * (n - 1 - i))) & 255 for i in range(n)]
+
+    ty = [ord(c) for c in "jxlc"]
+    cases = []
+    for n in (0, 3, 7):
+        cases.append((be(24, 4)[:n] + ty[:max(0, n - 4)], "need"))
+    for sz in (0, 2, 5, 7, 8, 9, 24, 0x7fffffff, 0xffffffff):
+        want = ("done", None, 8, 1) if sz == 0 else ("err",) if sz < 8 else ("done", sz - 8, 8, 0)
+        cases.append((be(sz, 4) + ty + [9, 9, 9], want))
+    for extra in (0, 4, 7):
+        cases.append((be(1, 4) + ty + [0] * extra, "need"))
+    for xl in (0, 1, 8, 15, 16, 17, 4096, 1 << 40, (1 << 64) - 1):
+        want = ("err",) if xl < 16 else ("done", xl - 16, 16, 0)
+        cases.append((be(1, 4) + ty + be(xl, 8) + [7], want))
+    cases.append((be(1, 4) + [ord(c) for c in "Exif"] + be(0, 8), ("err",)))
+    cases.append((be(0, 4) + [ord(c) for c in "brob"], ("done", None, 8, 1)))
+    rows, bad, undec = 0, None, None
+    for bs, want in cases:
+        ev = absint.Evaluator(ctx.prog)
+        try:
+            r = ev.call_fn(f, [absint.BufView(list(bs))])
+        except absint.Unsupported as e:
+            undec = "%s: %s" % (bytes(bs).hex(), e)
+            break
+        rows += 1
+        got = None
+        if isinstance(r, absint.Enum) and r.name == "Err":
+            got = ("err",)
+        elif isinstance(r, absint.Enum) and r.name == "Ok" and isinstance(r.fields[0], absint.Enum):
+            h = r.fields[0]
+            if h.name == "NeedMoreData":
+                got = "need"
+            elif h.name == "Done":
+                dd = dict(zip(df, h.fields))
+                hdr = dict(zip(hf, dd["header"].fields)) if isinstance(dd["header"], absint.Struct) else {}
+                bsz = hdr.get("box_size")
+                size = (bsz.fields[0] if bsz.name == "Some" else None) if isinstance(bsz, absint.Enum) else "?"
+                got = ("done", size, dd["header_size"], int(bool(hdr.get("is_last"))))
+        w = want if want == "need" else tuple(want)
+        if got != w and bad is None:
+            bad = (bytes(bs[:16]).hex(), got, w)
+    ctx.count(rid + ".rows", rows)
+    if undec:
+        ctx.bad(rid, "parse|not-evaluable", "ContainerBoxHeader::parse is no longer a function the evaluator can decide (%s)" % undec, fn=f)
+        return
+    ctx.floor(rid + ".rows", 26)
+    if bad:
+        ctx.bad(rid, "parse|size-rules", "header bytes %s: parse gives %s, the box format says %s (need = more data; err = invalid box; "
+                "done = payload size or None for `to end of file`, header length, is_last)" % bad, fn=f)
+    else:
+        ctx.ok(rid, "parse|size-rules", "%d headers parsed as the box format prescribes" % rows, nontrivial=True, fn=f)
+
+
 def main(pid, tier, repo=None):
     ctx = Ctx(pid, tier, configs=("workspace",), repo=repo)
     bs = ctx.prog.crate("jxl_bitstream")
     rule_jxlp(ctx, bs)
     rule_boxsize(ctx, bs)
+    rule_boxhdr_eval(ctx)
     rule_boxhdr(ctx, bs)
     rule_consumed(ctx, bs)
     rule_retry(ctx, bs)
